@@ -1039,3 +1039,5 @@ M("c14-neutral-double-bend-locals-renamed", "C14", "cola/libdialect/chains.cpp",
   "                CardinalDir afterNode = applyBendToDir.at(bt0).at(direc);\n                CardinalDir afterEdge = applyBendToDir.at(bt1).at(afterNode);\n                config.push_back({afterNode, afterEdge});\n                direc = afterEdge;", expect="silent")
 M("c14-left-anchor-direction-reversed", "C14", "cola/libdialect/chains.cpp",
   "            CardinalDir dIn = m_graph->getSepMatrix().getCardinalDir(A->id(), b->id());", "            CardinalDir dIn = m_graph->getSepMatrix().getCardinalDir(b->id(), A->id());", mention=["CHAIN-DIRECTIONS"])
+M("c02-merge-adds-before-shifting", "C02", "cola/libvpsc/block.cpp",
+  "        v->offset+=dist;\n        addVariable(v);", "        addVariable(v);\n        v->offset+=dist;", mention=["MERGE-OPTIMUM"])
